@@ -31,6 +31,9 @@ Definition enc_call (M : shape) (c : rval) : option jval :=
    place (KeySeed; since 4eaac7f a name written with escape sequences is fine - the tree as pinned
    read names as `&str` and failed on them), captures "oneway" / "more" / "upgrade" (value read as
    bool; a later occurrence overwrites an earlier one) and hands every other name to M's key seed.
+   The flags are recognised by their decoded name, however the text spells it and whichever
+   deserializer drives the visitor (names lent out of the input or transient ones: from_str,
+   from_slice, from_value, from_reader, a buffered Content).
    Every derived / Value visitor drains the map before it succeeds, and every error anywhere makes
    the whole decode fail, so the streaming is modelled as one pass that splits the members. *)
 Record cells := mk_cells { c_oneway : option bool; c_more : option bool; c_upgrade : option bool }.
